@@ -19,7 +19,8 @@ func c07Decl(opts flags.Options) *decl.Decl {
 		{Field: "Opt", Short: "é", Long: "Opt", Type: decl.TInt},
 		{Field: "Lonely", Long: "lonely", Type: decl.TString}, // long-only: it has no short name at all
 	}}
-	top.Groups = []*decl.Group{{Field: "NS", Name: "Namespaced", Namespace: "ns", Opts: []*decl.Opt{{Field: "O", Short: "o", Long: "opt", Type: decl.TString}}}}
+	top.Groups = []*decl.Group{{Field: "NS", Name: "Namespaced", Namespace: "ns", Opts: []*decl.Opt{{Field: "O", Short: "o", Long: "opt", Type: decl.TString},
+		{Field: "K", Short: "k", Type: decl.TBools}}}} // short-only inside the namespaced group: the bare prefix --ns. names nothing
 	deep := &decl.Cmd{Field: "Deep", Name: "deep", Opts: []*decl.Opt{{Field: "Depth", Short: "d", Long: "depth", Type: decl.TInt}}}
 	add := &decl.Cmd{Field: "Add", Name: "add", SubOptional: true, Cmds: []*decl.Cmd{deep}, Opts: []*decl.Opt{{Field: "Force", Short: "f", Long: "force", Type: decl.TBools}}}
 	rm := &decl.Cmd{Field: "Rm", Name: "rm", Opts: []*decl.Opt{{Field: "Recursive", Short: "r", Long: "recursive", Type: decl.TBools}},
@@ -35,7 +36,7 @@ var c07Units = [][]string{
 	// near misses: unknown everywhere
 	{"--Verbose"}, {"--verb"}, {"--verbos"}, {"--verbosee"}, {"--opt"}, {"--ns.ns.opt"}, {"--ns.op=1"}, {"--OPT"}, {"--opt=3"},
 	{"-x"}, {"-vx"}, {"-xv"}, {"-vxy"}, {"-V"}, {"--unk=val"}, {"-x=val"}, {"-è5"}, {"--ns.Opt=1"},
-	{"--50%off"}, {"-v%"}, {"-v\x00"}, {"-75"}, {"5"},
+	{"--ns."}, {"--50%off"}, {"-v%"}, {"-v\x00"}, {"-75"}, {"5"},
 }
 
 func init() {
@@ -53,6 +54,7 @@ func init() {
 		{"handler-insert", flags.None, ref.HandlerInsert},
 		{"handler-error", flags.None, ref.HandlerError},
 		{"fail+passdoubledash", flags.PassDoubleDash, ref.NoHandler},
+		{"ignore+passafternonoption", flags.IgnoreUnknown | flags.PassAfterNonOption, ref.NoHandler},
 	}
 	decls := map[flags.Options]*decl.Decl{}
 	body := func(c *explore.Ctx) {
@@ -73,7 +75,7 @@ func init() {
 		if c.Thorough && (warm != 0 || api) && maxDepth == 4 {
 			maxDepth = 5 // compensates the decrement below: these families stay at 4 in the thorough tier
 		}
-		if warm != 0 || api || (pol.handler != ref.NoHandler && pol.handler != ref.HandlerKeep) {
+		if warm != 0 || api || (pol.handler != ref.NoHandler && pol.handler != ref.HandlerKeep) || pol.opts&flags.PassAfterNonOption != 0 {
 			maxDepth-- // the reused-parser variants, the API build and the handler variants that rewrite the arguments go one unit less deep
 		}
 		n := c.Choose(maxDepth + 1)
@@ -196,8 +198,8 @@ func init() {
 		Level:      "model_checking",
 		ShardDepth: 5,
 		Body:       body,
-		Rule: "declaration with case-sensitive, namespaced and non-ASCII names and options that exist only in sibling / deeper commands; 8 policies (fail, fail+PassDoubleDash, IgnoreUnknown, handler returning the arguments unchanged / dropping the next / consuming all of them (nil slice) / " +
-			"inserting a token / returning an error) x {tags, API} x {fresh parser, parser that already parsed a vector selecting add/deep, selecting rm} x every sequence of <= 4 units (3 for the API build, the reused-parser and the argument-rewriting handler variants; thorough: one more for the fail and IgnoreUnknown policies, 4 for the rest) over 12 valid tokens and 23 near misses (case flips, names containing % or a NUL character, an unknown -<digits> token while an int positional is pending, prefixes, one character dropped/added/changed, " +
+		Rule: "declaration with case-sensitive, namespaced and non-ASCII names and options that exist only in sibling / deeper commands; 9 policies (fail, fail+PassDoubleDash, IgnoreUnknown, IgnoreUnknown+PassAfterNonOption, handler returning the arguments unchanged / dropping the next / consuming all of them (nil slice) / " +
+			"inserting a token / returning an error) x {tags, API} x {fresh parser, parser that already parsed a vector selecting add/deep, selecting rm} x every sequence of <= 4 units (3 for the API build, the reused-parser and the argument-rewriting handler variants; thorough: one more for the fail and IgnoreUnknown policies, 4 for the rest) over 12 valid tokens and 24 near misses (incl. the bare namespace prefix of a group whose option has only a short name) (case flips, names containing % or a NUL character, an unknown -<digits> token while an int positional is pending, prefixes, one character dropped/added/changed, " +
 			"namespace missing/doubled/case-changed, unknown character at either end of a cluster, two unknown characters in one cluster, inline arguments, a neighbouring non-ASCII letter); beside that: options of a struct field excluded with no-flag and an option name prefixed with the parser's own Namespace are unknown; oracle = CLM scope tables and handler call log",
 		Assumptions:  []string{"the name passed to the handler for a multi-character cluster is not asserted beyond: it mentions every character of the cluster, from the first unknown one on, that names no option in scope", "values of flags that precede an unknown character inside one cluster are not asserted"},
 		RequiredHits: []string{"unknown-rejected", "handler-called", "continued-after-unknown", "after-earlier-parse"},
